@@ -653,6 +653,24 @@ def run_depth_case(ctx, desc, with_from_dem=False):
                        "impl.f": f_i, "impl.d8": d8_i, "scale": den})
         if a["spec.depth_model"] != [1]:
             fs.append({"kind": "model", "what": "model output violates the depth-limited invariants"})
+        # outlets and too-deep cells keep their input elevation (fillModelDepth_deep_cells_keep); the too-deep
+        # cells are the model's (ghost counter), the outlet set is the declarative one
+        if a.get("spec.keep_impl") != [1]:
+            fs.append({"kind": "spec", "what": f"max_depth={md}: an outlet or a too-deep cell does not keep its input elevation",
+                       "impl.f": f_i, "scale": den})
+        if a.get("spec.keep_model") != [1]:
+            fs.append({"kind": "model", "what": "model output: an outlet or a too-deep cell does not keep its input elevation"})
+        # every non-zero direction at a valid cell goes to an allowed valid neighbour (fillModelDepth_step_allowed)
+        if a.get("spec.step_impl") != [1]:
+            fs.append({"kind": "spec", "what": f"max_depth={md}: a direction does not decode to an allowed valid neighbour",
+                       "impl.d8": d8_i})
+        if a.get("spec.step_model") != [1]:
+            fs.append({"kind": "model", "what": "model output: a direction does not decode to an allowed valid neighbour"})
+        if a.get("model.spurious_pits", [0])[0]:
+            # reported finding (not judged): the popped cell re-opened by a too-deep neighbour that precedes the
+            # centre in the neighbour loop visits itself and ends as a pit (code 0)
+            ctx.count("finding-candidate:max_depth spurious pit cells", a["model.spurious_pits"][0])
+            ctx.count("feature:max_depth-spurious-pit-case")
         if f_i != a["model.f"]:
             fs.append({"kind": "model", "what": f"max_depth={md}: filled elevation: implementation != Lean model",
                        "impl": f_i, "model": a["model.f"], "scale": den})
@@ -665,9 +683,9 @@ def run_depth_case(ctx, desc, with_from_dem=False):
         if ev:
             ctx.count("feature:too-deep-event-case")
         if evmax > 1:
-            # the unproved lemma behind unconditional termination: each cell is too deep at most once
+            # too_deep_once (now proved for the model in Proofs/C06Once.lean): each cell is too deep at most once
             ctx.count("CONJECTURE-FALSIFIED:cell too deep twice")
-            fs.append({"kind": "model", "what": f"a cell had {evmax} too-deep events (termination lemma 'at most one per cell' is false)"})
+            fs.append({"kind": "model", "what": f"a cell had {evmax} too-deep events (contradicts the proved theorem too_deep_once: the driver's model is not the proved one)"})
         if fd is not None:
             e = ans[1]
             if "__err__" in e:
